@@ -395,6 +395,7 @@ class dir_archive(archive):
         return NotImplemented if y is NotImplemented else not y
     __ne__.__doc__ = dict.__ne__.__doc__
     def __delitem__(self, key):
+        if not self.__contains__(key): raise KeyError(key)
         try:
             memo = {key: None}
             self._rmdir(key)
